@@ -26,8 +26,8 @@ HIST_RULE = ("hist driver: seeded random histories (login, proxied request with 
 
 MANAGER_SECTIONS = ['Manager/' + n for n in ('create', 'delete', 'deleteForExternalID', 'getOrRefresh', 'refresh', 'deleteForKey', 'update', 'acquireLock', 'readerGet', 'getForTicket', 'redisRead', 'redisWrite', 'redisUpdate', 'redisDelete', 'redisMakeLock', 'memoryUpdate', 'memoryMakeLock', 'redisLockAcquire', 'redisLockRelease')] + \
     ['pkg/session/session_manager.go', 'pkg/session/session_reader.go', 'pkg/session/store_redis.go', 'pkg/session/store_memory.go', 'pkg/session/lock.go']
-HANDLER_SECTIONS = ['Handlers/' + n for n in ('getSession', 'logout', 'logoutLocal', 'logoutCallback', 'logoutFrontChannel', 'sessionInfo', 'sessionRefresh', 'sessionForwardAuth', 'handleGetSessionError', 'loginCallback', 'proxyGetSession', 'proxyHandler', 'getSessionWithValidToken', 'handleAutologin', 'proxyGetSSOServerURL', 'proxyLogin', 'proxyLoginCallback', 'proxyLogout', 'proxyLogoutCallback', 'proxyLogoutFrontChannel', 'proxyLogoutLocal', 'proxySession', 'proxySessionRefresh', 'proxySessionForwardAuth', 'proxyWildcard', 'serverLogout', 'serverLogoutFrontChannel', 'serverLogoutLocal', 'serverWildcard', 'clientLoginCallback', 'issuerIdentification', 'redeemTokens', 'stateMismatchError', 'getCookieOptions', 'login', 'applyLoginRateLimit', 'respondError', 'retryURI', 'newStandaloneRedirect', 'standaloneCanonical', 'standaloneClean', 'standaloneFallback', 'newSSOServerRedirect', 'ssoServerCanonical', 'ssoServerClean', 'newSSOProxyRedirect', 'ssoProxyCanonical', 'ssoProxyClean', 'ssoProxyFallback', 'cleanRedirect', 'redirectQueryParam', 'fallbackRedirect', 'absoluteIsValid', 'relativeIsValid', 'parsableRequestURI', 'isAllowedHost', 'isValidScheme', 'isRelativeURL', 'isValidAbsolutePath', 'isAllowedDomain', 'acrHandlerValidate', 'acrNewHandler', 'matchingIngress', 'matchingPath', 'parseIngress', 'mustScheme')] + \
-    ['pkg/handler/handler.go', 'pkg/handler/handler_sso_proxy.go', 'pkg/handler/handler_sso_server.go', 'pkg/handler/reverseproxy.go', 'pkg/openid/client/login_callback.go', 'pkg/openid/oauth2.go', 'pkg/handler/error.go', 'pkg/url/redirect.go', 'pkg/url/validator.go', 'pkg/handler/acr/acr.go', 'pkg/ingress/ingress.go']
+HANDLER_SECTIONS = ['Handlers/' + n for n in ('getSession', 'logout', 'logoutLocal', 'logoutCallback', 'logoutFrontChannel', 'sessionInfo', 'sessionRefresh', 'sessionForwardAuth', 'handleGetSessionError', 'loginCallback', 'proxyGetSession', 'proxyHandler', 'getSessionWithValidToken', 'handleAutologin', 'proxyGetSSOServerURL', 'proxyLogin', 'proxyLoginCallback', 'proxyLogout', 'proxyLogoutCallback', 'proxyLogoutFrontChannel', 'proxyLogoutLocal', 'proxySession', 'proxySessionRefresh', 'proxySessionForwardAuth', 'proxyWildcard', 'serverLogout', 'serverLogoutFrontChannel', 'serverLogoutLocal', 'serverWildcard', 'clientLoginCallback', 'issuerIdentification', 'redeemTokens', 'stateMismatchError', 'getCookieOptions', 'login', 'applyLoginRateLimit', 'respondError', 'retryURI', 'newStandaloneRedirect', 'standaloneCanonical', 'standaloneClean', 'standaloneFallback', 'newSSOServerRedirect', 'ssoServerCanonical', 'ssoServerClean', 'newSSOProxyRedirect', 'ssoProxyCanonical', 'ssoProxyClean', 'ssoProxyFallback', 'cleanRedirect', 'redirectQueryParam', 'fallbackRedirect', 'absoluteIsValid', 'relativeIsValid', 'parsableRequestURI', 'isAllowedHost', 'isValidScheme', 'isRelativeURL', 'isValidAbsolutePath', 'isAllowedDomain', 'acrHandlerValidate', 'acrNewHandler', 'matchingIngress', 'matchingPath', 'parseIngress', 'mustScheme', 'clientLogin', 'newAuthorizationCodeParams', 'authCodeURL', 'loginSetCookie', 'authRequestParams', 'authCookie', 'parRequestParams')] + \
+    ['pkg/handler/handler.go', 'pkg/handler/handler_sso_proxy.go', 'pkg/handler/handler_sso_server.go', 'pkg/handler/reverseproxy.go', 'pkg/openid/client/login_callback.go', 'pkg/openid/oauth2.go', 'pkg/handler/error.go', 'pkg/url/redirect.go', 'pkg/url/validator.go', 'pkg/handler/acr/acr.go', 'pkg/ingress/ingress.go', 'pkg/openid/client/login.go']
 HANDLER_TIE = (" Every control-flow path through the real logout / session / reverse-proxy handlers is enumerated from a statement-by-statement translation regenerated on each run (Gen/Handlers) and "
                "the kernel decides, over ALL paths, what the handler model assumes (Proofs/GenTie/Handlers): success answers only after the lookup-error guard and the delete, cookies cleared with the request's options first, "
                "the upstream token set only when the validated lookup and the ACR gate passed, and always then.")
@@ -202,7 +202,7 @@ PROPS = {
         'assumptions': ["patterns over {literal, *, **, /}"],
     },
     'C13': {
-        'proofs': ['Ww.Proofs.C13', 'Ww.Proofs.GenTie.C13', 'Ww.Proofs.GenTie.Login', 'Ww.Proofs.GenTie.Ingress'],
+        'proofs': ['Ww.Proofs.C13', 'Ww.Proofs.GenTie.C13', 'Ww.Proofs.GenTie.Login', 'Ww.Proofs.GenTie.Ingress', 'Ww.Proofs.GenTie.Authz'],
         'gen_sections': HANDLER_SECTIONS + ['Dec/getAcrParam', 'Dec/getLocaleParam', 'Dec/getPromptParam', 'pkg/openid/client/login.go', 'pkg/openid/acr/acr.go'],
         'drivers': [{'name': 'c13'}],
         'reasons': ['C13.'],
